@@ -123,6 +123,13 @@ class _Compiler:
                     self.ntmp += 1
                     return "(lambda _i: D.get(_i,S[_i]))(%s[min(%d,%s)])" % (name, nch - 1, key)
                 return "S[%s[min(%d,%s)]]" % (name, nch - 1, key)
+            c0 = n.choices[0]
+            if isinstance(c0, _Slice) and all(isinstance(c, _Slice) and isinstance(c.value, Signal) and c.start == c0.start
+                                              and c.stop == c0.stop for c in n.choices) and \
+                    (over is None or not any(c.value in over for c in n.choices)) and not dyn:
+                name = self.const(tuple(self.sig(c.value) for c in n.choices))
+                w = c0.stop - c0.start
+                return "((S[%s[min(%d,%s)]]>>%d)&%d)" % (name, nch - 1, key, c0.start, (1 << w) - 1)
             if all(isinstance(c, Constant) for c in n.choices):
                 name = self.const(tuple(c.value for c in n.choices))
                 return "%s[min(%d,%s)]" % (name, nch - 1, key)
@@ -177,6 +184,19 @@ class _Compiler:
         elif isinstance(node, _ArrayProxy):
             key = self.ex(node.key, None)
             nch = len(node.choices)
+            c0 = node.choices[0]
+            if isinstance(c0, _Slice) and all(isinstance(c, _Slice) and isinstance(c.value, Signal) and c.value in self.memsigs
+                                              and c.start == c0.start and c.stop == c0.stop for c in node.choices):
+                # slice of a memory word selected by an index (byte-granular write enables)
+                name = self.const(tuple(self.sig(c.value) for c in node.choices))
+                self.ntmp += 1
+                iv = "_i%d" % self.ntmp
+                mask = ((1 << c0.stop) - 1) - ((1 << c0.start) - 1)
+                w = c0.stop - c0.start
+                full = (1 << c0.value.nbits) - 1
+                out.append("%s%s=%s[min(%d,%s)]" % (pad, iv, name, nch - 1, key))
+                out.append("%sD[%s]=((D.get(%s,S[%s])&%d)|((%s&%d)<<%d))&%d" % (pad, iv, iv, iv, ~mask, val, (1 << w) - 1, c0.start, full))
+                return
             if all(isinstance(c, Signal) and c in self.memsigs for c in node.choices):
                 widths = set((c.nbits, c.signed) for c in node.choices)
                 if len(widths) == 1:
